@@ -194,6 +194,13 @@ class FamilyRun:
                 for k in ("events", "states", "distinct", "parts", "t_tlc"):
                     agg[k] += r[k]
                 agg["truncated"] = agg.get("truncated", False) or r.get("truncated", False)
+                if r.get("machine"):
+                    m = agg.setdefault("machine", {"cases": 0, "compared": 0, "skipped": 0, "ndrift": 0, "drift": []})
+                    for k in ("cases", "compared", "skipped", "ndrift"):
+                        m[k] += r["machine"][k]
+                    for dr in r["machine"]["drift"][:3]:
+                        if len(m["drift"]) < 10:
+                            m["drift"].append(dict(dr, suite=r["machine"]["suite"]))
                 if r["sample"] and len(agg["samples"]) < 3:
                     agg["samples"].append(r["sample"])
         agg["cases"] = agg["cnt"].get("cases", 0)
@@ -258,7 +265,8 @@ class FamilyRun:
                 os.remove(f)
         return {"name": name, "table": tj, "tbl": tbl, "names": {n["id"]: n["name"] for n in tbl["nodes"]},
                 "parts": parts, "unknown": unknown, "grammars": suite.get("ngrammars", 0),
-                "spec": suite.get("spec", "TraceContract"), "t_compile": t_b - t_a, "t_run": time.time() - t_b}
+                "spec": suite.get("spec", "TraceContract"), "machine": suite.get("machine", False),
+                "t_compile": t_b - t_a, "t_run": time.time() - t_b}
 
     def do_part(self, b, part):
         t0 = time.time()
@@ -266,7 +274,17 @@ class FamilyRun:
         outp = part + ".verdicts.json"
         r, gen, dist = tlc_trace(part, b["table"], outp, spec=b["spec"])
         res = {"verdicts": [], "cnt": r["cnt"], "events": r["lines"], "states": gen, "distinct": dist, "parts": 1,
-               "sample": None}
+               "sample": None, "machine": None}
+        if b.get("machine") and part.endswith(".0000.ndjson"):
+            # lock-step comparison of the operational model with this part of the recorded runs (drift, never a verdict)
+            mo = part + ".machine.json"
+            mr, mgen, mdist = tlc_trace(part, b["table"], mo, spec="TraceMachine")
+            res["machine"] = mr["machine"]
+            res["machine"]["suite"] = name
+            res["states"] += mgen
+            res["distinct"] += mdist
+            if os.path.exists(mo):
+                os.remove(mo)
         if part.endswith(".0000.ndjson"):
             with open(part) as f:
                 head = [json.loads(x) for _, x in zip(range(6), f)]
